@@ -895,7 +895,7 @@ class Mesh:
         m = self
         has_boundaries = self.boundaries is not None
         has_subdomains = self.subdomains is not None
-        if isinstance(times_or_ix, int):
+        if np.ndim(times_or_ix) == 0:  # any integer, not an index array
             for _ in range(times_or_ix):
                 mtmp = m._uniform()
                 # fix subdomains for remaining mesh types
